@@ -305,7 +305,7 @@ class Scenario:
                 'trigger_app': (trig[3][-2] if trig[0] in ('start_application', 'restart_application') else
                                 (trig[3][0] if trig[0] == 'stop_application' else '')),
                 'trigger_step': self.trigger_step, 'n': len(names), 'steps': steps,
-                'race_order': bool(sc.get('race_order')),
+                'race_order': bool(sc.get('race_order')), 'has_drops': bool(sc.get('drops')),
                 'trigger_node': (int(trig[1][1]) if trig[0] != 'distribution' else 0),
                 'wait_exit_forever': any(p.get('wait_exit') and (p.get('behaviour', 'normal') not in ('exit0', 'exit1')
                                                                  or [f'{a["name"]}:{p["name"]}', 'EXITED'] in sc.get('drops', []))
